@@ -45,7 +45,7 @@ def gen_case(rng, tier, idx):
     sched = gen_sched(rng, ('P',) if plain else ('P', 'U', 'R', 'X'), budget_choices=(5, 20, 60))
     if rng.random() < 0.65:
         long_run = rng.random() < 0.03      # long roll-outs with strong discounting: discount**t leaves the normal float range
-        spec = gen_mdp_spec(rng, **_size(rng), proper=(rng.random() < 0.7) and not long_run, discounts=(0.1, 0.5) if long_run else (0.1, 0.5, 0.8, 0.9, 0.95, 0.99, 1.0))
+        spec = gen_mdp_spec(rng, extreme=True, **_size(rng), proper=(rng.random() < 0.7) and not long_run, discounts=(0.1, 0.5) if long_run else (0.1, 0.5, 0.8, 0.9, 0.95, 0.99, 1.0))
         v = MDPView(spec)
         kind = rng.choice(('functional', 'tabular', 'deterministic'))
         pol = []
